@@ -259,13 +259,18 @@ class Dec2(declib.Dec):
     def run_inplace(self, blk, dsize, capmode, salt=0):
         """block placed at the END of a buffer of LZ4_DECOMPRESS_INPLACE_BUFFER_SIZE(dsize) bytes,
         decoded to its start.  returns (ret, image[0,dsize))"""
-        size = dsize + inplace_margin(dsize)
+        x = self.run_inplace_whole(blk, dsize, capmode, salt)
+        return None if x is None else (x[0], x[1][:dsize])
+
+    def run_inplace_whole(self, blk, dsize, capmode, salt=0, base=None):
+        """the same, margin (dsize >> 8) + base (default: the macro's); returns (ret, the whole buffer afterwards)"""
+        size = dsize + (inplace_margin(dsize) if base is None else (dsize >> 8) + base)
         if len(blk) > size:
             return None
         buf = Buf(size, data=fill(size - len(blk), salt) + blk)
         cap = dsize if capmode == 0 else size
         r = self.lib.decompress_safe(buf.p + size - len(blk), buf.p, len(blk), cap)
-        img = buf.bytes(dsize, 0)
+        img = buf.bytes(size, 0)
         buf.free()
         return r, img
 
@@ -281,6 +286,15 @@ def inplace_margin(n):
     return (n >> 8) + _IPM[0]
 
 # ---------------------------------------------------------------- model side, one-shot
+def model_inplace(orc2, fastloop, blk, dsize, capmode, salt, base=None):
+    """Model/DecInplace.v (oracle dec2): LZ4_decompress_safe inside one buffer of dsize + margin bytes, block at its end;
+    returns (ret, ok, md5(whole buffer afterwards))"""
+    size = dsize + (inplace_margin(dsize) if base is None else (dsize >> 8) + base)
+    cap = dsize if capmode == 0 else size
+    a = orc2.ask("inplace", hx(fill(size - len(blk), salt) + blk), str(size - len(blk)), str(len(blk)), str(cap), "1" if fastloop else "0")
+    t = a.split()
+    return int(t[0]), t[1], t[3]
+
 def model_fast(orc2, api, blk, dsize, hist, salt):
     """Model/DecFast.v (oracle dec2): LZ4_decompress_fast / _fast_usingDict on a valid block; returns (ret, ok, md5(image[0,dsize)))"""
     pl, d = ("p", hist) if api == "fast_p" else (("x", hist) if api == "fast_x" else ("x", b""))
@@ -356,6 +370,19 @@ def gen_stream(rng, geom, nblocks, maxblock, big=False, ringfill=False):
         out[-1].update({"blk": blk, "content": content, "profile": prof})
         total += content
         prev = content
+    # zero-length messages (the one-byte block 00): LZ4_decompress_safe_continue returns 0 and must leave the history it
+    # keeps untouched, wherever the empty block is "decoded" (same place, other buffer, after a ring wrap)
+    if geom in ("contig", "ring", "double", "extchain") and len(out) >= 2 and rng.random() < 0.5:
+        for _ in range(rng.choice([1, 1, 2])):
+            at = rng.randrange(1, len(out))
+            out.insert(at, {"hist": out[at]["hist"], "blk": bytes([rng.choice([0x00, 0x00, 0x05, 0x0f])]), "content": b"", "profile": "empty"})
+        if geom == "double":
+            # in the double-buffer geometry a block's history is the previous NON-EMPTY block (an empty one leaves the state as is)
+            last = b""
+            for b in out:
+                b["hist"] = last
+                if b["content"]:
+                    last = b["content"]
     return out
 
 def _ext(v):
@@ -496,10 +523,13 @@ def run_stream(lib, orc2, fast, geom, blocks, maxblock, rng, salt, use_fast_api=
             poke(bs, 0, fill(maxblock, salt + k))
             bufs.append((bb, bs))
         plan = []
-        for i, b in enumerate(blocks):
+        k = 0            # number of non-empty blocks so far: an empty block leaves the decoder's history where it is, so the
+        for i, b in enumerate(blocks):      # buffers alternate on the non-empty blocks only
             n = len(b["content"])
-            bb, bs = bufs[i & 1]
+            bb, bs = bufs[k & 1]
             plan.append((bb, bs, 0, rng.choice([n, maxblock, min(n + 1, maxblock)])))
+            if n:
+                k += 1
     elif geom == "extchain":
         # LZ4_setStreamDecode(external dictionary) once, then contiguous blocks: ext-dict mode, then double-dict mode
         hist = blocks[0]["hist"]
